@@ -221,3 +221,100 @@ class IsIgnored:
 
     def ensures_cache_updated(self, file_path, result, old):
         return self._ignore_cache == cache_after(old.self._ignore_cache, self.project_root, self.repo_patterns, file_path)
+
+
+# =================================================================== _collect_files_fast: bounded check on real trees
+DIR_NAMES = sorted(SPEC_EXCLUDED_DIRS | EXTRA_EXCLUDED_DIRS) + ["x.egg-info", "*.egg-info", ".hidden", "pkg", "src", "BUILD",
+                                                                "Node_Modules", "build2", "distx", "egg-info"]
+FILE_NAMES = ["a.py", "b.pyc", "c.PYC", "d.so", "noext", ".hiddenfile", "e.egg-info", "build", "dist", "m.o", "n.obj", "k.class",
+              "t.ts", "lib.dylib", "venv", "x.pyo", "y.pyd", "z.dll", "w.txt"]
+
+
+def _gen_tree(rng, depth):
+    """A small directory tree: {name: subtree-dict | None (file)} with at most 3 entries per level."""
+    tree = {}
+    for _ in range(rng.randint(0, 3)):
+        if depth > 0 and rng.random() < 0.55:
+            nm = rng.choice(DIR_NAMES)
+            if nm not in tree:
+                tree[nm] = _gen_tree(rng, depth - 1)
+        else:
+            nm = rng.choice(FILE_NAMES)
+            if nm not in tree:
+                tree[nm] = None
+    return tree
+
+
+def _materialise(base, tree):
+    import os
+    for nm, sub in tree.items():
+        p = os.path.join(base, nm)
+        if sub is None:
+            with open(p, "w", encoding="utf-8") as fh:
+                fh.write("x = 1\n")
+        else:
+            os.mkdir(p)
+            _materialise(p, sub)
+
+
+def _expected(tree, recursive, prefix=()):
+    """The contract of _collect_files_fast on the tree model: regular files, not below an excluded directory name
+    (finding-adjusted set), without compiled suffixes; only the top level when not recursive."""
+    import pathlib
+    out = set()
+    for nm, sub in tree.items():
+        if sub is None:
+            if pathlib.PurePosixPath(nm).suffix not in COMPILED_SUFFIXES:
+                out.add("/".join(prefix + (nm,)))
+        elif recursive and not code_excluded_dir(nm):
+            out |= _expected(sub, recursive, prefix + (nm,))
+    return out
+
+
+@custom("c14-walk-bounded", props=["C14"])
+def walk_bounded(ctx):
+    """BOUNDED (never counted as proved): _collect_files_fast (os.walk with in-place pruning) against its contract on
+    small REAL temporary trees (depth <= 3, <= 3 entries per level, names drawn from every excluded name, *.egg-info,
+    hidden, plain and upper-case variants; files with compiled / other suffixes and files NAMED like excluded dirs)."""
+    import os
+    import random
+    import shutil
+    import tempfile
+    from pyvc.native import call_target
+    n = 300 if ctx.get("tier", "quick") == "quick" else 4000
+    rng = random.Random(1000003 * int(ctx.get("seed", 0)) + 14)
+    name = "custom:c14-walk-bounded/_collect_files_fast"
+    base = tempfile.mkdtemp(prefix="c14walk_")
+    cases = nonempty = pruned = 0
+    try:
+        import pathlib
+        for i in range(n):
+            tree = _gen_tree(rng, 3)
+            root = os.path.join(base, f"t{i}")
+            os.mkdir(root)
+            _materialise(root, tree)
+            for recursive in (True, False):
+                got_list = call_target(O + "_collect_files_fast", pathlib.Path(root), recursive)
+                got = [os.path.relpath(str(p), root) for p in got_list]
+                want = _expected(tree, recursive)
+                cases += 1
+                nonempty += bool(want)
+                pruned += any(sub is not None and code_excluded_dir(nm) for nm, sub in tree.items())
+                if len(got) != len(set(got)) or set(got) != want:
+                    return [dict(name=name, kind="bounded", verdict="refuted", carries=True, tool="real-tree enumeration",
+                                 budget=f"{n} trees", cases=cases, witness_confirmed=True,
+                                 witness={"tree": tree, "recursive": recursive, "got": sorted(got), "expected": sorted(want)},
+                                 note=f"tree {tree} recursive={recursive}: got {sorted(got)} expected {sorted(want)}")]
+            shutil.rmtree(root, ignore_errors=True)
+    except BaseException as e:  # noqa
+        return [dict(name=name, kind="bounded", verdict="unknown", carries=True, tool="real-tree enumeration", budget=f"{n} trees",
+                     cases=cases, note=f"harness error: {e!r}"[:300])]
+    finally:
+        shutil.rmtree(base, ignore_errors=True)
+    if nonempty < cases // 4 or pruned < n // 10:
+        return [dict(name=name, kind="bounded", verdict="unknown", carries=True, tool="real-tree enumeration", budget=f"{n} trees",
+                     cases=cases, note=f"generator too weak: {nonempty} non-empty expectations, {pruned} trees with a pruned directory")]
+    return [dict(name=name, kind="bounded", verdict="passed", carries=True, tool="real-tree enumeration (tempfile.mkdtemp, removed)",
+                 budget=f"{n} trees x recursive/non-recursive, seed {ctx.get('seed', 0)}", cases=cases,
+                 note=f"{cases} calls agree with the contract; {nonempty} with a non-empty file set, {pruned} trees contain an "
+                      f"excluded directory at the top level")]
